@@ -242,3 +242,107 @@ func vCrashFetch(kind cache.EntryKind, mode casblob.CompressionType) {
 func VerifCrashFetchCasZstd() { vCrashFetch(cache.CAS, casblob.Zstandard) }
 func VerifCrashFetchCasRaw()  { vCrashFetch(cache.CAS, casblob.Identity) }
 func VerifCrashFetchAC()      { vCrashFetch(cache.AC, casblob.Zstandard) }
+
+// vCrashOverwrite: an action-cache key that already has a complete value is
+// being overwritten when the process is killed at the k-th file-system step
+// (including the background remover's unlink of the old file, which runs
+// before the crash point or not at all); restart; read the key. Afterwards the
+// key serves one whole version: the old one, or the new one - and the new one
+// if the overwrite had been acknowledged.
+func VerifCrashOverwriteAC() {
+	kind := cache.AC
+	mode := casblob.Zstandard
+	d := vNewDisk(1, mode, []cache.EntryKind{kind}, false)
+	c, st := d.c, d.st
+	vCrashDirs()
+	vmodel.FS.AddDir(vDir + "/ac.v2/bb")
+	hash := vHashes[0]
+	old := d.files[0]
+	s0 := st.items[0].sizeOnDisk
+	vsym.Assume(s0 < 1<<30)
+	vsym.Assume(c.maxBlobSize >= 2<<20)
+	vsym.Assume(c.lru.maxSize >= 8<<20)
+	vsym.Assume(c.lru.currentSize < 2<<20)
+	vsym.Assume(c.lru.reservedSize == 0)
+	c.lru.maxSizeHardLimit = 0
+	u := vArbitraryUpload(hash, 2<<20, 0)
+	vsym.Assume(u.size >= 1)
+	vsym.Assume(u.st.L == u.size)
+	vsym.Assume(u.st.FailAt < 0)
+	crashAt := vsym.Choose("crashAt", 10) // 0 = no crash
+	vmodel.FS.CrashAt = crashAt
+	vsym.Fact("kind", kind.String())
+	vsym.Fact("mode", int(mode))
+
+	err := c.Put(context.Background(), kind, hash, u.size, u.st)
+	acked := err == nil && !vmodel.FS.Dead
+	if !vmodel.FS.Dead {
+		// the background remover deletes the replaced file (or is killed doing so)
+		d.drain()
+	}
+	if crashAt != 0 && !vmodel.FS.Dead {
+		vsym.Stop("the overwrite has fewer file-system steps than the crash point")
+	}
+	if vmodel.FS.Dead {
+		vsym.Reach("crashed-during-overwrite")
+	}
+
+	vmodel.FS.Restart()
+	c2 := &diskCache{dir: vDir, storageMode: mode, zstd: d.codec, maxBlobSize: 1 << 40, maxProxyBlobSize: 1 << 40, diskWaitSem: c.diskWaitSem}
+	lerr := c2.loadExistingFiles(c.lru.maxSize, CacheConfig{diskCache: c2})
+	vsym.Assert(lerr == nil, "crashover/C08-restart-succeeds")
+	if lerr != nil {
+		return
+	}
+	sizeKnown := vsym.Choose("sizeKnown", 2) == 1
+	req := int64(-1)
+	if sizeKnown {
+		req = u.size
+		vsym.Fact("sizeKnown", "yes")
+	} else {
+		vsym.Fact("sizeKnown", "no")
+	}
+	rc, found, gerr := c2.Get(context.Background(), kind, hash, req, 0)
+	if gerr != nil || rc == nil {
+		vsym.Reach("absent-after-restart")
+		if acked {
+			vsym.Assert(false, "crashover/C08-acknowledged-overwrite-is-served-after-restart")
+		}
+		if !sizeKnown {
+			// the key had a complete value before and nothing evicted it
+			vsym.Assert(false, "crashover/C08-key-lost-by-an-interrupted-overwrite")
+		}
+		return
+	}
+	vsym.Reach("served-after-restart")
+	segs, rerr := zstdimpl.Drain(rc, 3)
+	_ = rc.Close()
+	vsym.Assert(rerr == nil, "crashover/C08-stream-has-no-error")
+	// which file was served?
+	var served *vmodel.MFile
+	for _, f := range vmodel.FS.Files {
+		if len(segs) > 0 && segs[0].Src == f.ID {
+			served = f
+		}
+	}
+	okS := served != nil
+	vsym.Assert(okS, "crashover/C08-served-bytes-come-from-one-file")
+	if !okS {
+		return
+	}
+	zstdimpl.AssertRange(segs, served.ID, 0, found, "crashover/C08-whole-file-served")
+	if served == old {
+		vsym.Reach("old-version-served")
+		vsym.Assert(found == s0, "crashover/C08-old-version-whole")
+		vsym.Assert(!acked, "crashover/C08-acknowledged-overwrite-lost")
+	} else {
+		vsym.Reach("new-version-served")
+		okE := len(served.Ext) == 1
+		vsym.Assert(okE, "crashover/C08-new-version-is-one-complete-write")
+		if okE {
+			e := served.Ext[0]
+			vsym.Assert(e.Src == "upload" && e.SrcOff == 0 && e.Off == 0, "crashover/C08-new-version-holds-the-uploaded-bytes")
+			vsym.Assert(vsym.And(e.Len == u.size, found == u.size), "crashover/C08-no-torn-entry-served")
+		}
+	}
+}
